@@ -292,6 +292,9 @@ class Check:
                 continue
             violations.append(f)
         os.makedirs(os.path.join(OUT, "replays", self.prop), exist_ok=True)
+        for old_ in os.listdir(os.path.join(OUT, "replays", self.prop)):      # the directory shows the last run only
+            if old_.endswith(".json"):
+                os.remove(os.path.join(OUT, "replays", self.prop, old_))
         os.makedirs(os.path.join(OUT, "evidence"), exist_ok=True)
         seen = set()
         for f in violations:
